@@ -203,19 +203,20 @@ def on_path(p, r, exc, acc):
         if r["exc"] is not None:
             if "exc" not in kinds:
                 acc.vcs += 1
-                acc.candidate(kind="raises-on-text", input=w, detail="%s at (%s,%s); reference: plain text" % (
+                acc.candidate(kind="raises-on-text", input=w, pre=r.get("pre"), raw=r["input"].concretize(m), detail="%s at (%s,%s); reference: plain text" % (
                     type(r["exc"]).__name__, r["exc"].lineno, r["exc"].pos))
         else:
             got = text_output(r["tree"].nodes, [])
             alts = [str_eq_term(SymStr(got), SymStr(x[1][1])) for x in reads if x[1][0] == "out"]
             acc.vcs += 1
             if not alts:
-                acc.candidate(kind="no-exception", input=w, detail="reference requires a Mako exception")
+                acc.candidate(kind="no-exception", input=w, pre=r.get("pre"), raw=r["input"].concretize(m), detail="reference requires a Mako exception")
             else:
                 st, mod = p.vc(z3.Or(alts))
                 if st == "fails":
                     w2 = s.concretize(mod)
-                    acc.candidate(kind="text-mismatch", input=w2, detail="text nodes %r" % (SymStr(got).concretize(mod),))
+                    acc.candidate(kind="text-mismatch", input=w2, pre=r.get("pre"), raw=r["input"].concretize(mod),
+                                  detail="text nodes %r" % (SymStr(got).concretize(mod),))
                 elif st == "unknown":
                     acc.vcs_unknown += 1
     # ---- layer 3: differential replay of this path's witness on the unpatched real lexer
@@ -275,12 +276,14 @@ def make_replay(c):
     body = '''
 TEMPLATE = %r
 KIND = %r
+PRE, RAW = %r, %r
 sys.path.insert(0, "/verif")
 from oracles import tokenizer
 from mako.template import Template
 from mako import exceptions
+from props.realops import _PRE
 try:
-    out = ("ok", Template(TEMPLATE).render_unicode())
+    out = ("ok", Template(RAW, preprocessor=_PRE[PRE]).render_unicode(x="${x}") if PRE else Template(TEMPLATE).render_unicode())
 except (exceptions.SyntaxException, exceptions.CompileException) as e:
     out = ("exc", type(e).__name__)
 except Exception as e:
@@ -297,8 +300,8 @@ ok = (out in admissible) or (out[0] == "exc" and ("exc",) in admissible)
 if KIND == "crash" and out[0] == "err": ok = False
 print("HOLDS" if ok else "VIOLATED: source text outside directives is not reproduced exactly")
 sys.exit(0 if ok else 1)
-''' % (w, c["kind"])
-    return (c["kind"], body, ("text", w))
+''' % (w, c["kind"], c.get("pre"), c.get("raw"))
+    return (c["kind"], body, ("text", w, c.get("pre")))
 
 
 def classify(c):
